@@ -84,7 +84,7 @@ def mutate(rng, doc, version):
     root_name = "root" if version == 1 else "sgx_root"
     for _ in range(rng.choice([1, 1, 1, 2, 2, 3])):
         k = rng.choice(["top-field", "el-field", "dup-el", "cycle", "self-signed", "dangling",
-                        "target", "drop-el", "dup-name", "nonstring-name", "type", "grow",
+                        "dangling", "target", "drop-el", "dup-name", "nonstring-name", "type", "grow",
                         "elements-kind", "retarget-any", "hex-resize", "hex-resize",
                         "unicode-name", "root-named-element", "nonfinite-number",
                         "x509-unknown-signature-oid", "certified-by-another-kind"])
@@ -215,7 +215,11 @@ def mutate(rng, doc, version):
                 e["signed_by"] = rng.choice(others).get("name")
                 labels.append("certified-by-another-kind")
         elif k == "dangling" and ok_els:
-            rng.choice(els)["signed_by"] = rng.choice(["nobody", "", "Root", 5, None])
+            rng.choice(els)["signed_by"] = rng.choice(
+                ["nobody", "", "Root", 5, None,
+                 # (the root's name in another case, padded, doubled: not the root's name)
+                 root_name.upper(), root_name.capitalize(), root_name.title(),
+                 root_name + " ", " " + root_name, root_name.swapcase(), root_name * 2])
             labels.append("dangling-signer")
         elif k == "target":
             t = d.get("targets")
